@@ -427,12 +427,17 @@ class SqlImpl(TableImpl):
             # share a name; inside the subquery they need distinct labels)
             pipeline_name = {uid: sqa_expr[uid].name for uid in subquery_cols if uid in sqa_expr}
 
-            # resolve potential column name collisions in the subquery
+            # resolve potential column name collisions in the subquery (a generated label must not
+            # coincide with the name of another column either)
+            taken = {sqa_expr[uid].name for uid in subquery_cols if uid in sqa_expr}
             for uid in subquery_cols:
                 if uid in sqa_expr:
                     name = sqa_expr[uid].name
                     if c := cnt.get(name):
-                        name_in_subquery[uid] = f"{name}_{c}"
+                        while (label := f"{name}_{c}") in taken:
+                            c += 1
+                        taken.add(label)
+                        name_in_subquery[uid] = label
                         cnt[name] = c + 1
                     else:
                         name_in_subquery[uid] = name
